@@ -5,6 +5,17 @@ a text with a denotation is a text of the plain grammar.
 -/
 namespace Sqlgrep.JsonGrammar
 
+theorem ws_nil : Ws [] := by intro c h; cases h
+
+theorem ws_append {a b : List Char} (ha : Ws a) (hb : Ws b) : Ws (a ++ b) := by
+  intro c hc
+  cases List.mem_append.mp hc with
+  | inl h => exact ha c h
+  | inr h => exact hb c h
+
+/-- a structural character without whitespace around it (the compact form) -/
+theorem sep_bare (c : Char) : Sep c [c] := ⟨[], [], ws_nil, ws_nil, rfl⟩
+
 theorem StrCharD.strChar {cs : List Char} {x : Char} (h : StrCharD cs x) : Chars cs := by
   have one : ∀ {c}, StrChar c → Chars c := fun hc => by simpa using Chars.cons hc Chars.nil
   have hex : ∀ {a b c d n}, hex4 a b c d = some n → HexDig a ∧ HexDig b ∧ HexDig c ∧ HexDig d := by
